@@ -11,10 +11,12 @@ import (
 	"fmt"
 	"os"
 	"os/exec"
+	"path"
 	"path/filepath"
 	"runtime"
 	"sort"
 	"strconv"
+	"strings"
 	"sync"
 	"time"
 )
@@ -185,7 +187,7 @@ func (r *Run) Parallel(fn func(w, n int, l *Local)) {
 
 type knownFinding struct {
 	Property string `json:"property"`
-	Key      string `json:"key"`
+	Key      string `json:"key"` // exact finding key, or a pattern with * (matches within one /-separated part)
 	Status   string `json:"status"` // "open" or "fixed"
 	Commit   string `json:"commit,omitempty"`
 	What     string `json:"what"`
@@ -211,6 +213,20 @@ func loadKnown(id string) map[string]knownFinding {
 	return out
 }
 
+func matchKnown(known map[string]knownFinding, key string) (knownFinding, bool) {
+	if kf, ok := known[key]; ok {
+		return kf, true
+	}
+	for pat, kf := range known {
+		if strings.Contains(pat, "*") {
+			if ok, _ := path.Match(pat, key); ok {
+				return kf, true
+			}
+		}
+	}
+	return knownFinding{}, false
+}
+
 // Finish confirms violations, writes evidence, prints the verdict and returns the exit code.
 func (r *Run) Finish() int {
 	t := r.total
@@ -226,10 +242,28 @@ func (r *Run) Finish() int {
 		}
 		return keys[i] < keys[j]
 	})
-	if len(keys) > 20 {
-		keys = keys[:20]
-	}
+	// Listed (open) findings are grouped first: one representative (the smallest case) per listed
+	// finding, so that they can never crowd a new violation out of the report; then up to 20 others.
 	known := loadKnown(r.ID)
+	{
+		seenKnown := map[string]bool{}
+		var kept []string
+		unknown := 0
+		for _, k := range keys {
+			if kf, ok := matchKnown(known, k); ok {
+				if !seenKnown[kf.Key] {
+					seenKnown[kf.Key] = true
+					kept = append(kept, k)
+				}
+				continue
+			}
+			if unknown < 20 {
+				kept = append(kept, k)
+				unknown++
+			}
+		}
+		keys = kept
+	}
 	self, _ := os.Executable()
 	type vrec struct {
 		Key     string `json:"key"`
@@ -270,7 +304,7 @@ func (r *Run) Finish() int {
 			lines = append(lines, fmt.Sprintf("ANOMALY property=%s key=%q did not reproduce from %s (harness nondeterminism; not believed)", r.ID, v.Key, path))
 		default:
 			rec.Flaky = repro < 5
-			if kf, ok := known[v.Key]; ok {
+			if kf, ok := matchKnown(known, v.Key); ok {
 				rec.Known = true
 				lines = append(lines, fmt.Sprintf("KNOWN-FINDING: property=%s %s [key=%s]", r.ID, kf.What, v.Key))
 			} else {
